@@ -369,6 +369,11 @@ class Interp(ExprMixin):
     def call_method(self, obj, name, args, kwargs, node):
         if isinstance(obj, SObj):
             q = obj.cls + "." + name
+            if "@" in obj.cls:          # an object of a class-model variant 'Class@tag': its methods are the variants 'Class.m#tag'
+                base_, tag_ = obj.cls.split("@", 1)
+                q = base_ + "." + name
+                if q + "#" + tag_ in self.reg.contracts:
+                    return self.call_function(q + "#" + tag_, obj, args, kwargs, node)
             if q in self.reg.externals:
                 return self.reg.externals[q](self, [obj] + list(args), kwargs, node)
             return self.call_function(self.pick_variant(q, args), obj, args, kwargs, node)
